@@ -1,24 +1,26 @@
 """C12 -- writing a model to an EPANET INP file and reading it back preserves it (writer/reader agreement)."""
 import ast
 import copy
-import itertools
 import re
 
-from ..src import walk, calls, call_name, dotted, const, loc, unparse, norm, AnchorError, ExtractError, last_attr
+from ..src import walk, calls, call_name, loc, unparse, AnchorError, ExtractError, last_attr
 from ..symx import SymExec, Opaque, State
 from ..peval import Evaluator, Lin, Obj, Unknown
-from .. import inpx
 from ..inpx import Conv, IO, UTIL, find_convs, discriminators, placeholders, module_string, make_hook
 
 EXPLANATION = (
     "Cross-checking the sibling implementations InpFile._write_X / _read_X: every to_si/from_si site is followed through the abstract "
-    "interpreter into the file column it is printed in (writer: format string token position) or parsed from (reader: current[i]) together with "
+    "interpreter into the file column it is printed in (writer: format string token position) or parsed from (reader: element i of the split line) together with "
     "the discriminating keywords / element types of its path; matched sites must be inverse conversions (same conversion class as computed by "
     "C17's partial evaluator over all flow units, same flags such as darcy_weisbach / mass units / reaction order, opposite direction); a "
     "conversion that exists on one side of a column only is reported; the reader's discriminant column must be the column the writer puts the "
-    "discriminator in; lines whose conversion depends on an option parsed from the same section are written after that option; rule "
-    "conditions/actions use one attribute->unit map in all six writer/reader blocks; simple-control settings and thresholds likewise; time "
-    "string helpers are mutually inverse. Decides unit/field/keyword agreement of the two halves, not text precision or idempotence.")
+    "discriminator in; lines whose conversion depends on an option parsed from the same section are written after that option on every path; rule "
+    "conditions/actions use one attribute->unit map in all six writer/reader blocks; simple-control settings and thresholds likewise (whole-function "
+    "abstract execution of _write_controls / _read_control_line per valve type). Facts are taken from path conditions, events and values of the "
+    "abstract execution (locals substituted, helpers stepped into, lookup tables split per key), not from the text of the source. The version-2.0 "
+    "rules compare the lines the writer can produce for version=2.0 and =2.2. [TIMES], simple time controls, rule clock times, the time-string helpers "
+    "and the [DEMANDS] guard are decided by RUNNING writer and reader on mock objects in the concrete evaluator (sa/concrete.py; nothing of the "
+    "repository is imported) and comparing what comes back. Decides unit/field/keyword agreement of the two halves, not text precision or idempotence.")
 RULE_TEXT = "one instance = one (section, column/keyword, discriminator) conversion pair, one discriminator, one ordering or one map entry"
 ASSUMPTIONS = ["[REPORT], [BACKDROP], [LABELS] are outside the statement", "write guards that omit default-valued lines rely on EPANET's defaults (inventoried only)"]
 
@@ -152,6 +154,12 @@ def drop_shadowed(rows):
     return out
 
 
+def is_point(conv):
+    """the converted value is a coordinate of a curve point (an indexed element of something that is not the split line): curves are joined separately"""
+    v = conv.value
+    return conv.column() is None and isinstance(v, Opaque) and v.base is not None and isinstance(v.key, int) and not isinstance(v.key, bool)
+
+
 def writer_rows(repo, section, qual=None):
     fn, outs, ex = run_paths(repo, qual or ("InpFile._write_" + section))
     rows = {}
@@ -192,24 +200,90 @@ class CompExec(SymExec):
             return [self.ev(n.elt, sub)]
         return SymExec.e_ListComp(self, n, st)
 
+    # f-strings and %-formatting produce the same text as str.format: they are recorded as the same `format` event (format string with
+    # one auto-numbered placeholder per value, positional arguments)
+    def _format_event(self, fmt, args, node, st):
+        st.events.append(("format", fmt, (list(args), {}), getattr(node, "lineno", 0), tuple(l[1] for l in st.loops)))
+        return Opaque("<formatted>")
+
+    def e_JoinedStr(self, n, st):
+        fmt, args = "", []
+        for part in n.values:
+            if isinstance(part, ast.Constant):
+                fmt += str(part.value).replace("{", "{{").replace("}", "}}")
+            elif isinstance(part, ast.FormattedValue):
+                spec = ""
+                if part.format_spec is not None:
+                    if not all(isinstance(x, ast.Constant) for x in part.format_spec.values):
+                        return SymExec.e_JoinedStr(self, n, st)
+                    spec = ":" + "".join(str(x.value) for x in part.format_spec.values)
+                fmt += "{" + spec + "}"
+                args.append(self.ev(part.value, st))
+            else:
+                return SymExec.e_JoinedStr(self, n, st)
+        if not args:
+            return fmt.replace("{{", "{").replace("}}", "}")
+        return self._format_event(fmt, args, n, st)
+
+    def e_BinOp(self, n, st):
+        if isinstance(n.op, ast.Mod):
+            left = self.ev(n.left, st)
+            if isinstance(left, str) and "%" in left:
+                pieces = re.split(r"(%%|%[-+ #0]*\d*(?:\.\d+)?[sdifgGeErx])", left)
+                fmt, k = "", 0
+                for pc in pieces:
+                    if pc == "%%":
+                        fmt += "%"
+                    elif re.fullmatch(r"%[-+ #0]*\d*(?:\.\d+)?[sdifgGeErx]", pc or ""):
+                        fmt += "{}"
+                        k += 1
+                    else:
+                        fmt += (pc or "").replace("{", "{{").replace("}", "}}")
+                right = self.ev(n.right, st)
+                args = list(right) if isinstance(right, tuple) else [right]
+                if k == len(args) and k:
+                    return self._format_event(fmt, args, n, st)
+                return self.binop(n.op, left, right, n)
+            return self.binop(n.op, left, self.ev(n.right, st), n)
+        return SymExec.e_BinOp(self, n, st)
+
+    def bind_loop_target(self, t, st):
+        # `for x, y in points`: x and y keep their names but remember which component of the iterated item they are
+        if isinstance(t, (ast.Tuple, ast.List)) and all(isinstance(e, ast.Name) for e in t.elts):
+            item = Opaque(unparse(t))
+            for i, e in enumerate(t.elts):
+                st.env[e.id] = Opaque(e.id, item, i)
+            return
+        SymExec.bind_loop_target(self, t, st)
+
+    @staticmethod
+    def _table(node, st, ex):
+        """the abstract dict a Name or a dict display denotes (both are free of effects), else None"""
+        if isinstance(node, ast.Name) and isinstance(st.env.get(node.id), dict):
+            return st.env[node.id]
+        if isinstance(node, ast.Dict) and all(isinstance(k, ast.Constant) for k in node.keys):
+            return ex.ev(node, st)
+        return None
+
     def branch(self, test, body, orelse, st):
-        if isinstance(test, ast.Compare) and len(test.ops) == 1 and isinstance(test.ops[0], ast.In) and isinstance(test.comparators[0], ast.Name) \
-                and isinstance(st.env.get(test.comparators[0].id), dict):
-            table = st.env[test.comparators[0].id]
-            left = self.ev(test.left, st)
-            if isinstance(left, Opaque) and table and all(isinstance(k, str) for k in table):
-                outs = []
-                for k in table:
-                    s2 = st.fork()
-                    s2.conds.append(("%s == %r" % (left.text, k), True))
-                    outs.extend(self.block(body, [s2]))
-                st.conds.append(("%s in %r" % (left.text, tuple(table)), False))
-                return outs + self.block(orelse, [st])
+        if isinstance(test, ast.Compare) and len(test.ops) == 1 and isinstance(test.ops[0], ast.In):
+            table = self._table(test.comparators[0], st, self)
+            if table and all(isinstance(k, str) for k in table):
+                left = self.ev(test.left, st)
+                if isinstance(left, Opaque):
+                    outs = []
+                    for k in table:
+                        s2 = st.fork()
+                        s2.conds.append(("%s == %r" % (left.text, k), True))
+                        outs.extend(self.block(body, [s2]))
+                    st.conds.append(("%s in %r" % (left.text, tuple(table)), False))
+                    return outs + self.block(orelse, [st])
         return SymExec.branch(self, test, body, orelse, st)
 
     def e_Subscript(self, n, st):
-        if isinstance(n.value, ast.Name) and isinstance(st.env.get(n.value.id), dict):
-            table, key = st.env[n.value.id], self.ev(n.slice, st)
+        table = self._table(n.value, st, self)
+        if table is not None:
+            key = self.ev(n.slice, st)
             if isinstance(key, Opaque):
                 for t, v in reversed(st.conds):
                     m = re.fullmatch(re.escape(key.text) + r" == '([^']*)'", t)
@@ -241,8 +315,13 @@ def reader_line_body(fn):
                 and isinstance(s.value.func, ast.Attribute) and s.value.func.attr == "split" and not s.value.args and not s.value.keywords:
             tok, k = s.targets[0].id, i + 1
     if tok is None:
-        # the split line is the loop variable itself (for lnum, current in <helper>(...)) or not split at top level
-        tok = "current"
+        # the split line is bound elsewhere (e.g. the loop variable of `for lnum, tokens in <helper>(...)`): the name whose elements are picked
+        # by position most often in the body
+        cnt = {}
+        for x in ast.walk(lp):
+            if isinstance(x, ast.Subscript) and isinstance(x.value, ast.Name) and isinstance(x.slice, ast.Constant) and isinstance(x.slice.value, int):
+                cnt[x.value.id] = cnt.get(x.value.id, 0) + 1
+        tok = max(sorted(cnt), key=lambda k_: cnt[k_]) if cnt else "current"
     # the empty-line guard: an `if` on the token list whose body only continues
     if k < len(body) and isinstance(body[k], ast.If) and not body[k].orelse and all(isinstance(x, ast.Continue) for x in body[k].body) \
             and tok in {x.id for x in ast.walk(body[k].test) if isinstance(x, ast.Name)}:
@@ -334,7 +413,7 @@ def controls_writer_facts(repo, wctl, vts):
             if isinstance(base, Opaque) and attr == "_attribute":
                 return "setting"
             return NotImplemented
-        ex = SymExec(call_hook=make_hook(), attr_hook=ah, inline=inl, test_hook=lambda t, n, s: True if ("isinstance(" in t and _isinstance_class(t) == "Valve") else None)
+        ex = CompExec(call_hook=make_hook(), attr_hook=ah, inline=inl, test_hook=lambda t, n, s: True if ("isinstance(" in t and _isinstance_class(t) == "Valve") else None)
         res = set()
         for o in ex.run(wctl):
             if o.raised:
@@ -354,6 +433,9 @@ def controls_writer_facts(repo, wctl, vts):
                         for t, val in o.conds:
                             if val and "isinstance(" in t and "_source_obj" in t and _isinstance_class(t):
                                 thr.setdefault(_isinstance_class(t), set()).add(cs[0] if cs else None)
+                            elif val and "node_type" in t and "_source_obj" in t:
+                                for nt in re.findall(r"'(\w+)'", t):
+                                    thr.setdefault(nt, set()).add(cs[0] if cs else None)
         if not res:
             raise ExtractError("_write_controls: no line with a value in the setting column (2) found for a %s" % vt)
         wmap[vt] = res
@@ -378,7 +460,7 @@ def controls_reader_facts(repo, rctl, vts):
             if isinstance(base, Opaque) and attr == "valve_type":
                 return vt
             return NotImplemented
-        ex = SymExec(call_hook=make_hook(), attr_hook=ah, test_hook=th, inline=inline_table(repo, rctl))
+        ex = CompExec(call_hook=make_hook(), attr_hook=ah, test_hook=th, inline=inline_table(repo, rctl))
         res = set()
         for o in ex.run(rctl):
             if o.raised:
@@ -406,7 +488,7 @@ def controls_reader_facts(repo, rctl, vts):
 
 # ------------------------------------------------------------------ version differential
 def _exec_with(repo, fn, env, test_hook=None, max_paths=40000):
-    ex = SymExec(call_hook=make_hook(), test_hook=test_hook, inline=inline_table(repo, fn, "InpFile"))
+    ex = CompExec(call_hook=make_hook(), test_hook=test_hook, inline=inline_table(repo, fn, "InpFile"))
     ex.MAX_PATHS = max_paths
     e = {a.arg: Opaque(a.arg) for a in fn.args.args}
     for k in env:
@@ -499,13 +581,24 @@ class _MockFile(_Mock):
         self.chunks.append(b.decode("utf-8") if isinstance(b, bytes) else str(b))
 
 
-def concrete_demand_lines(repo, ndem, cat):
-    """the [DEMANDS] data lines InpFile._write_demands writes for a junction 'J1' with ndem demands, the first of category cat"""
-    from ..concrete import World, Namespace, stdlib_overrides, ProgramError
+def concrete_world(repo, identity_units=True):
+    """a world of the concrete evaluator (sa/concrete.py) for running reader / writer methods of InpFile on mock objects; stdlib `re` is the real one
+    (it only ever sees concrete strings), unit conversion is the identity when the unit is not the subject"""
+    import re as _re
+    from ..concrete import World, Namespace, stdlib_overrides
     ov, _state = stdlib_overrides()
     ov["sys"] = Namespace("sys", getdefaultencoding=lambda: "utf-8", version_info=(3, 10), platform="linux")
-    ov["wntr.epanet.util.from_si"] = lambda fu, v, p, *a, **k: v          # the unit is not the subject here
-    world = World(repo, ov)
+    ov["re"] = _re
+    if identity_units:
+        ov["wntr.epanet.util.from_si"] = lambda fu, v, p, *a, **k: v
+        ov["wntr.epanet.util.to_si"] = lambda fu, v, p, *a, **k: v
+    return World(repo, ov)
+
+
+def concrete_demand_lines(repo, ndem, cat):
+    """the [DEMANDS] data lines InpFile._write_demands writes for a junction 'J1' with ndem demands, the first of category cat"""
+    from ..concrete import ProgramError
+    world = concrete_world(repo)
     dem = [_Mock(category=(cat if i == 0 else None), base_value=1.0 + i, pattern_name=None) for i in range(ndem)]
     junction = _Mock(demand_timeseries_list=dem, name="J1")
     wn = _Mock(junction_name_list=["J1"], pattern_name_list=[], get_node=lambda n: junction, nodes={"J1": junction})
@@ -518,6 +611,102 @@ def concrete_demand_lines(repo, ndem, cat):
     return [l for l in "".join(f.chunks).splitlines() if l.split() and l.split()[0] == "J1"]
 
 
+TIME_OPTIONS = dict(duration=86400, hydraulic_timestep=3600, quality_timestep=360, pattern_timestep=7200, pattern_start=1800, report_timestep=3600, report_start=7200,
+                    start_clocktime=0, rule_timestep=360, statistic="NONE")
+
+
+def concrete_times_round_trip(repo, world, values):
+    """InpFile._write_times run on mock options.time holding `values`, the text handed to InpFile._read_times of a fresh reader with empty
+    mock options -> (text written, {option: value read back}); 'raises: ...' instead of the dict when the reader rejects the text"""
+    from ..concrete import ProgramError
+    cls = world.function(IO, "InpFile")
+    f = _MockFile()
+    try:
+        w = world.interp.call(cls, [], {})
+        world.interp.call(world.interp.getattr_(w, "_write_times"), [f, _Mock(options=_Mock(time=_Mock(**values)))], {})
+    except ProgramError as e:
+        raise ExtractError("_write_times could not be run on the mock options: %s" % e)
+    text = "".join(f.chunks)
+    lines = [(i + 1, l) for i, l in enumerate(text.splitlines()) if l.strip() and not l.lstrip().startswith("[")]
+    back = _Mock()
+    try:
+        r = world.interp.call(cls, [], {})
+        world.interp.setattr_(r, "wn", _Mock(options=_Mock(time=back)))
+        world.interp.setattr_(r, "sections", {"[TIMES]": lines})
+        world.interp.call(world.interp.getattr_(r, "_read_times"), [], {})
+    except ProgramError as e:
+        return text, "raises: %s" % e
+    return text, dict(back.__dict__)
+
+
+def concrete_time_control_round_trip(repo, instants):
+    """a simple control `set pump speed AT TIME t`, written by InpFile._write_controls (run on instances of the repository's own Control /
+    ControlAction / SimTimeCondition / Pump classes whose fields are set directly) and the written line parsed by _read_control_line (run with
+    Control / ControlAction replaced by recorders) -> [(t, line written, time read back)]"""
+    import re as _re
+    from ..concrete import World, Namespace, Instance, ProgramError, stdlib_overrides
+    CTRL, ELEM = "wntr/network/controls.py", "wntr/network/elements.py"
+    ww = concrete_world(repo)
+    ov, _s = stdlib_overrides()
+    ov["sys"] = Namespace("sys", getdefaultencoding=lambda: "utf-8", version_info=(3, 10), platform="linux")
+    ov["re"] = _re
+    ov["wntr.epanet.util.to_si"] = lambda fu, v, p, *a, **k: v
+    ov["wntr.network.controls.Control"] = Namespace("Control", _time_control=lambda wn, t, kind, daily, act, name: ("time", t, kind, daily, act),
+                                                    _conditional_control=lambda node, attr, oper, thr, act, name: ("cond", node, attr, oper, thr, act))
+    ov["wntr.network.controls.ControlAction"] = lambda obj, attr, val: ("action", obj, attr, val)
+    rw = World(repo, ov)
+
+    def inst(world, rel, cls, **attrs):
+        o = Instance(world.function(rel, cls))
+        for k, v in attrs.items():
+            setattr(o, k, v)
+        return o
+    rows = []
+    for t in instants:
+        pump = inst(ww, ELEM, "Pump", _link_name="P1", name="P1", link_type="Pump")
+        act = inst(ww, CTRL, "ControlAction", _target_obj=pump, _attribute="base_speed", _value=1.5, _private_attribute="base_speed")
+        ctl = inst(ww, CTRL, "Control", _then_actions=[act], _else_actions=[], _control_type="simple (not a rule)", _condition=inst(ww, CTRL, "SimTimeCondition", _threshold=t),
+                   _name="c1", _priority=3)
+        f = _MockFile()
+        try:
+            w = ww.interp.call(ww.function(IO, "InpFile"), [], {})
+            ww.interp.call(ww.interp.getattr_(w, "_write_controls"), [f, _Mock(controls=lambda: [("c1", ctl)])], {})
+        except ProgramError as e:
+            raise ExtractError("_write_controls could not be run on the mock time control: %s" % e)
+        lines = [l for l in "".join(f.chunks).splitlines() if l.strip() and not l.lstrip().startswith("[")]
+        if len(lines) != 1:
+            raise ExtractError("_write_controls wrote %d lines for one time control: %r" % (len(lines), lines))
+        p2 = inst(rw, ELEM, "Pump", _link_name="P1", name="P1", link_type="Pump")
+        try:
+            r = rw.interp.call(rw.function(IO, "_read_control_line"), [lines[0], _Mock(get_link=lambda n: p2, get_node=lambda n: None), None, "c1"], {})
+            back = r[1] if isinstance(r, tuple) and r and r[0] == "time" else "not a time control: %r" % (r,)
+        except ProgramError as e:
+            back = "raises: %s" % e
+        rows.append((t, lines[0].strip(), back))
+    return rows
+
+
+def concrete_rule_clock_round_trip(repo, instants):
+    """ControlCondition._sec_to_clock (the rule writer's text of a SYSTEM CLOCKTIME threshold) composed with ControlCondition._parse_value
+    (what TimeOfDayCondition makes of that text when the rule is read), both run by the concrete evaluator -> [(t, text, value read back)]"""
+    from ..concrete import ProgramError
+    CTRL = "wntr/network/controls.py"
+    world = concrete_world(repo)
+    cc = world.function(CTRL, "ControlCondition")
+    rows = []
+    for t in instants:
+        try:
+            txt = world.interp.call(world.interp.getattr_(cc, "_sec_to_clock"), [t], {})
+        except ProgramError as e:
+            raise ExtractError("ControlCondition._sec_to_clock(%d) could not be run: %s" % (t, e))
+        try:
+            back = world.interp.call(world.interp.getattr_(cc, "_parse_value"), [txt], {})
+        except ProgramError as e:
+            back = "raises: %s" % e
+        rows.append((t, txt, back))
+    return rows
+
+
 def run(repo, chk):
     classes = conversion_classes(repo)
     chk.sample({"rule": "R-C12-2", "conversion classes equal to HydParam.Length": sorted(k for k, v in classes.items() if v == classes["HydParam.Length"])})
@@ -525,8 +714,20 @@ def run(repo, chk):
     chk.fn(rd, wr)
 
     # ---------------------------------------------------------------- R-C12-1 section pairing
-    reads = {last_attr(c)[6:] for c in calls(rd) if (last_attr(c) or "").startswith("_read_")}
-    writes = {last_attr(c)[7:] for c in calls(wr) if (last_attr(c) or "").startswith("_write_")}
+    inp_methods = set(repo.methods(repo.cls(IO, "InpFile")))
+
+    def sections_called(fn, prefix):
+        """sections whose _read_X / _write_X method fn calls: directly, or through a table of names (`getattr(self, '_read_' + name)()` over
+        a literal sequence -- the names are the string constants of fn that complete the prefix to an existing method)"""
+        out = {last_attr(c)[len(prefix):] for c in calls(fn) if (last_attr(c) or "").startswith(prefix)}
+        strs = [x.value for x in ast.walk(fn) if isinstance(x, ast.Constant) and isinstance(x.value, str) and len(x.value) < 40]
+        if any(x.startswith(prefix) for x in strs) and any(isinstance(c, ast.Call) and call_name(c) == "getattr" for c in ast.walk(fn)):
+            for x in strs:
+                nm = x[len(prefix):] if x.startswith(prefix) else x.strip("[]").lower()
+                if nm and prefix + nm in inp_methods:
+                    out.add(nm)
+        return out
+    reads, writes = sections_called(rd, "_read_"), sections_called(wr, "_write_")
     for s in sorted(reads | writes):
         chk.expect(s in reads and s in writes, "R-C12-1", "section %s is both written by InpFile.write and read by InpFile.read" % s, loc(wr),
                    found="read=%s write=%s" % (s in reads, s in writes))
@@ -540,8 +741,8 @@ def run(repo, chk):
         rf, R = reader_rows(repo, sec)
         chk.fn(wf, rf)
         allrows[sec] = (W, R)
-        Wc = [w for w in W if w.conv is not None and not w.conv.vtext().startswith("point[")]
-        Rc = [r for r in R if r.conv is not None and (r.col is not None or r.disc) and not r.conv.vtext().startswith("point[")]
+        Wc = [w for w in W if w.conv is not None and not is_point(w.conv)]
+        Rc = [r for r in R if r.conv is not None and (r.col is not None or r.disc) and not is_point(r.conv)]
         for w in Wc:
             if w.col is None and not w.disc:
                 continue
@@ -746,7 +947,7 @@ def run(repo, chk):
                 if name and name.endswith("_repr_value"):
                     return Opaque("val_si")
                 return NotImplemented
-            ex = SymExec(call_hook=make_hook(ch), attr_hook=ah, test_hook=test_hook, inline=inline_table(repo, fn))
+            ex = CompExec(call_hook=make_hook(ch), attr_hook=ah, test_hook=test_hook, inline=inline_table(repo, fn))
             st = State(dict(env))
             res = out.setdefault(a, set())
             for o in ex.block(stmts, [st]):
@@ -914,21 +1115,24 @@ def run(repo, chk):
     chk.expect(bad is None, "R-C12-7", "_str_time_to_sec weighs hours by 3600 and minutes by 60 (HH:MM:SS, HH:MM, HH)", loc(t2s),
                expected=bad[2] if bad else None, found=("%r reads as %s" % (bad[0], bad[1])) if bad else None)
     # simple time controls: the token written for `AT TIME t` reads back as t for every whole second
-    from ._shared import control_time_round_trip, rule_clock_round_trip, forced
-    rows_, wcf, rcf = control_time_round_trip(repo)
+    from ._shared import forced
+    wcf, rcf = repo.func(IO, "InpFile._write_controls"), repo.func(IO, "_read_control_line")
     chk.fn(wcf, rcf)
+    rows_ = concrete_time_control_round_trip(repo, (0, 1, 59, 60, 1199, 1200, 3599, 3600, 3661, 4800, 8400, 43200, 86399, 90061, 604860, 1000000))
     chk.sample({"rule": "R-C12-8", "time_control_round_trip": [(t, tok, back) for t, tok, back in rows_[:8]]})
     for t, tok, back in rows_:
         chk.expect(back == t, "R-C12-8", "a simple control AT TIME %d s is written as a token that reads back as %d s" % (t, t), loc(wcf),
-                   "finite evaluation of the 'time' value and format spec of _write_controls composed with the reader's conversion of that token",
+                   "InpFile._write_controls run on a mock time control, the written line parsed by _read_control_line (concrete evaluation of both)",
                    expected=t, found="%r reads back as %s" % (tok, back))
     # rule clock times: _sec_to_clock (writer side of SYSTEM CLOCKTIME clauses) composed with _parse_value (reader side)
-    rows_, s2cf, pvf = rule_clock_round_trip(repo)
+    CTRL_ = "wntr/network/controls.py"
+    s2cf, pvf = repo.func(CTRL_, "ControlCondition._sec_to_clock"), repo.func(CTRL_, "ControlCondition._parse_value")
     chk.fn(s2cf, pvf)
+    rows_ = concrete_rule_clock_round_trip(repo, [h * 3600 + m_ * 60 + s_ for h in range(24) for m_, s_ in ((0, 0), (30, 0), (59, 59))])
     for hour in range(24):
         hb = [(t, txt, back) for t, txt, back in rows_ if t // 3600 == hour and back != t]
         chk.expect(not hb, "R-C12-8", "a rule's SYSTEM CLOCKTIME threshold in hour %02d reads back as the same instant" % hour, loc(pvf),
-                   "finite evaluation of ControlCondition._sec_to_clock composed with ControlCondition._parse_value",
+                   "concrete evaluation of ControlCondition._sec_to_clock composed with ControlCondition._parse_value",
                    expected=hb[0][0] if hb else None, found=("%r reads back as %s" % (hb[0][1], hb[0][2])) if hb else None)
     chk.floor("R-C12-8", 16 + 24)
     # ---------------------------------------------------------------- R-C12-9 the writer converts with the units it announces
@@ -940,7 +1144,7 @@ def run(repo, chk):
     if not any(l == "QUALITY" and any(t.endswith("quality.inpfile_units") for t in argtexts(a_)) for l, a_ in ol22):
         raise ExtractError("_write_options: QUALITY line with the mass units not found")
     # abstract execution of write(): which values are stored to self.mass_units / self.flow_units on which paths (temporaries are followed)
-    wex = SymExec(call_hook=make_hook(), inline=inline_table(repo, wfn))
+    wex = CompExec(call_hook=make_hook(), inline=inline_table(repo, wfn))
     mu_stores, fu_stores = [], []
     for o in wex.run(wfn):
         for e in o.events:
@@ -983,16 +1187,30 @@ def run(repo, chk):
                "add_control_condition flattens the condition tree into IF/AND/OR clauses in visiting order; the reader groups them as an AND of OR-groups, so "
                "`a or (b and c)` and `(a and b) or c` come back as different conditions", expected="normalisation to an AND of OR-groups, or a refusal", found="children are emitted in order without looking at their type")
 
-    # START CLOCKTIME: the 12-hour writer composed with _clock_time_to_sec is the identity on every hour of the day
-    from ._shared import clocktime_round_trip
-    rows, wtf, rdf = clocktime_round_trip(repo)
-    chk.fn(wtf, rdf)
-    badrows = [(t, txt, back) for t, txt, back in rows if back != t]
+    # [TIMES]: the writer and the reader are RUN (concrete evaluator, mock options) -- every option, and START CLOCKTIME for instants in
+    # every hour of the day, must come back as written; how either side computes or formats the text does not matter
+    wtf, rdf = repo.func(IO, "InpFile._write_times"), repo.func(IO, "InpFile._read_times")
+    chk.fn(wtf, rdf, repo.func(IO, "_clock_time_to_sec"))
+    world = concrete_world(repo)
+    diffs = {}
     for hour in range(24):
-        hb = [b for b in badrows if b[0] // 3600 == hour]
-        chk.expect(not hb, "R-C12-7", "START CLOCKTIME written for an instant in hour %02d reads back as the same instant" % hour, loc(wtf),
-                   "finite evaluation of the AM/PM writer in _write_times composed with _clock_time_to_sec (as _read_times calls it)",
-                   expected="%d s" % hb[0][0] if hb else None, found=("%r reads back as %s" % (hb[0][1], hb[0][2])) if hb else None)
+        hb = None
+        for m_, s_ in ((0, 0), (30, 0), (59, 59)):
+            vals = dict(TIME_OPTIONS, start_clocktime=hour * 3600 + m_ * 60 + s_)
+            text, back = concrete_times_round_trip(repo, world, vals)
+            line = [l.strip() for l in text.splitlines() if "CLOCKTIME" in l.upper()]
+            got = back.get("start_clocktime") if isinstance(back, dict) else back
+            if got != vals["start_clocktime"]:
+                hb = hb or (vals["start_clocktime"], line[0] if line else "(no START CLOCKTIME line)", got)
+            if isinstance(back, dict):
+                for k, v in vals.items():
+                    if k != "start_clocktime" and back.get(k) != v:
+                        diffs.setdefault(k, (v, back.get(k)))
+        chk.expect(hb is None, "R-C12-7", "START CLOCKTIME written for an instant in hour %02d reads back as the same instant" % hour, loc(wtf),
+                   "InpFile._write_times run on mock time options, its text read by InpFile._read_times (concrete evaluation of both)",
+                   expected="%d s" % hb[0] if hb else None, found=("%r reads back as %s" % (hb[1], hb[2])) if hb else None)
+    chk.expect(not diffs, "R-C12-7", "[TIMES] duration, time steps, pattern / report start and statistic read back as written", loc(wtf),
+               expected={k: v[0] for k, v in diffs.items()}, found={k: v[1] for k, v in diffs.items()})
 
 
 WITNESSES = [
@@ -1014,4 +1232,53 @@ WITNESSES = [
     dict(name="control-threshold-class", file=IO, old="                        vals['thresh'] = from_si(self.flow_units, threshold, HydParam.Pressure) ", new="                        vals['thresh'] = from_si(self.flow_units, threshold, HydParam.HydraulicHead) ", rule="R-C12-2"),
     dict(name="curve-headloss", file=IO, old="                    y = from_si(self.flow_units, point[1], HydParam.HeadLoss)", new="                    y = from_si(self.flow_units, point[1], HydParam.HydraulicHead)", rule="R-C12-2"),
     dict(name="length-vs-head-preserving", file=IO, old="                        to_si(self.flow_units, float(current[2]), HydParam.Length),\n                        to_si(self.flow_units, float(current[3]), HydParam.Length),", new="                        to_si(self.flow_units, float(current[2]), HydParam.HydraulicHead),\n                        to_si(self.flow_units, float(current[3]), HydParam.Elevation),", silent=True),
+    # --- behaviour-preserving rewrites the rules must stay quiet on (shape tolerance, one per kind of refactoring) and further mutations that
+    #     must fire; generated from the current source text, every `old` occurs exactly once
+    dict(name='silent-rule-else-loop-as-helper-and-comprehension', file=IO, old="        else_acts = []\n        for act in self._else_clauses:\n            words = act.strip().split()\n            if len(words) < 6:\n                # TODO: raise error\n                pass\n            link = model.get_link(words[2])\n            attr = words[3].lower()\n            value = ValueCondition._parse_value(words[5])\n            if attr.lower() in ['demand']:\n                value = to_si(self.inp_units, value, HydParam.Demand)\n            elif attr.lower() in ['head', 'level']:\n                value = to_si(self.inp_units, value, HydParam.HydraulicHead)\n            elif attr.lower() in ['flow']:\n                value = to_si(self.inp_units, value, HydParam.Flow)\n            elif attr.lower() in ['pressure']:\n                value = to_si(self.inp_units, value, HydParam.Pressure)\n            elif attr.lower() in ['setting']:\n                if isinstance(link, Valve):\n                    if link.valve_type.upper() in ['PRV', 'PBV', 'PSV']:\n                        value = to_si(self.inp_units, value, HydParam.Pressure)\n                    elif link.valve_type.upper() in ['FCV']:\n                        value = to_si(self.inp_units, value, HydParam.Flow)\n            else_acts.append(ControlAction(link, attr, value))\n", new='        else_acts = [self._parse_action_clause(model, act) for act in self._else_clauses]\n', also=[('    def generate_control(self, model):\n', "    def _parse_action_clause(self, model, act):\n        words = act.strip().split()\n        if len(words) < 6:\n            # TODO: raise error\n            pass\n        link = model.get_link(words[2])\n        attr = words[3].lower()\n        value = ValueCondition._parse_value(words[5])\n        if attr.lower() in ['demand']:\n            value = to_si(self.inp_units, value, HydParam.Demand)\n        elif attr.lower() in ['head', 'level']:\n            value = to_si(self.inp_units, value, HydParam.HydraulicHead)\n        elif attr.lower() in ['flow']:\n            value = to_si(self.inp_units, value, HydParam.Flow)\n        elif attr.lower() in ['pressure']:\n            value = to_si(self.inp_units, value, HydParam.Pressure)\n        elif attr.lower() in ['setting']:\n            if isinstance(link, Valve):\n                if link.valve_type.upper() in ['PRV', 'PBV', 'PSV']:\n                    value = to_si(self.inp_units, value, HydParam.Pressure)\n                elif link.valve_type.upper() in ['FCV']:\n                    value = to_si(self.inp_units, value, HydParam.Flow)\n        return ControlAction(link, attr, value)\n\n    def generate_control(self, model):\n")], silent=True),
+    dict(name='silent-control-setting-closure-as-method-with-early-returns', file=IO, old="    def _write_controls(self, f, wn):\n        def get_setting(control_action, control_name):\n            value = control_action._value\n            attribute = control_action._attribute.lower()\n            if attribute == 'status':\n                setting = LinkStatus(value).name\n            elif attribute == 'base_speed':\n                setting = str(value)\n            elif attribute == 'setting' and isinstance(control_action._target_obj, Valve):\n                valve = control_action._target_obj\n                valve_type = valve.valve_type\n                if valve_type == 'PRV' or valve_type == 'PSV' or valve_type == 'PBV':\n                    setting = str(from_si(self.flow_units, value, HydParam.Pressure))\n                elif valve_type == 'FCV':\n                    setting = str(from_si(self.flow_units, value, HydParam.Flow))\n                elif valve_type == 'TCV':\n                    setting = str(value)\n                elif valve_type == 'GPV':\n                    setting = value\n                else:\n                    raise ValueError('Valve type not recognized' + str(valve_type))\n            elif attribute == 'setting':\n                setting = value\n            else:\n                setting = None\n                logger.warning('Could not write control '+str(control_name)+' - skipping')\n\n            return setting\n\n", new="    def _control_setting(self, control_action, control_name):\n        value = control_action._value\n        attribute = control_action._attribute.lower()\n        if attribute == 'status':\n            return LinkStatus(value).name\n        if attribute == 'base_speed':\n            return str(value)\n        if attribute == 'setting' and isinstance(control_action._target_obj, Valve):\n            valve_type = control_action._target_obj.valve_type\n            if valve_type in ('PRV', 'PSV', 'PBV'):\n                return str(from_si(self.flow_units, value, HydParam.Pressure))\n            if valve_type == 'FCV':\n                return str(from_si(self.flow_units, value, HydParam.Flow))\n            if valve_type == 'TCV':\n                return str(value)\n            if valve_type == 'GPV':\n                return value\n            raise ValueError('Valve type not recognized' + str(valve_type))\n        if attribute == 'setting':\n            return value\n        logger.warning('Could not write control '+str(control_name)+' - skipping')\n        return None\n\n    def _write_controls(self, f, wn):\n", also=[("                            'setting': get_setting(control_action, text),\n                            'compare': 'TIME',", "                            'setting': self._control_setting(control_action, text),\n                            'compare': 'TIME',"), ("                            'setting': get_setting(control_action, text),\n                            'ntype':", "                            'setting': self._control_setting(control_action, text),\n                            'ntype':")], silent=True),
+    dict(name='silent-sec-to-clock-shared-static-split-helper', file='wntr/network/controls.py', old='    @classmethod\n    def _sec_to_clock(cls, value):\n        sec = float(value)\n        hours = int(sec/3600.)\n        sec -= hours*3600\n        mm = int(sec/60.)\n        sec -= mm*60\n        if hours >= 12:', new='    @staticmethod\n    def _split_hms(sec):\n        hours = int(sec/3600.)\n        sec -= hours*3600\n        mm = int(sec/60.)\n        sec -= mm*60\n        return hours, mm, sec\n\n    @classmethod\n    def _sec_to_clock(cls, value):\n        hours, mm, sec = cls._split_hms(float(value))\n        if hours >= 12:', silent=True),
+    dict(name='silent-reader-token-variable-renamed', file=IO, old="    def _read_emitters(self):\n        for lnum, line in self.sections['[EMITTERS]']: # Private attribute on junctions\n            line = line.split(';')[0]\n            current = line.split()\n            if current == []:\n                continue\n            junction = self.wn.get_node(current[0])\n            junction.emitter_coefficient = to_si(self.flow_units, float(current[1]), HydParam.EmitterCoeff)\n\n", new="    def _read_emitters(self):\n        for lnum, line in self.sections['[EMITTERS]']: # Private attribute on junctions\n            line = line.split(';')[0]\n            tokens = line.split()\n            if tokens == []:\n                continue\n            junction = self.wn.get_node(tokens[0])\n            junction.emitter_coefficient = to_si(self.flow_units, float(tokens[1]), HydParam.EmitterCoeff)\n\n", silent=True),
+    dict(name='silent-junction-elevation-hoisted-into-temporaries', file=IO, old='                self.wn.add_junction(current[0],\n                                base_demand,\n                                pat,\n                                to_si(self.flow_units, float(current[1]), HydParam.Elevation),\n                                demand_category=None)', new='                elev_file = float(current[1])\n                elev = to_si(self.flow_units, elev_file, HydParam.Elevation)\n                self.wn.add_junction(current[0], base_demand, pat, elev, demand_category=None)', silent=True),
+    dict(name='silent-pipe-entry-keyword-arguments-and-conditional-expression', file=IO, old="            E = {'name': pipe_name,\n                 'node1': pipe.start_node_name,\n                 'node2': pipe.end_node_name,\n                 'len': from_si(self.flow_units, pipe.length, HydParam.Length),\n                 'diam': from_si(self.flow_units, pipe.diameter, HydParam.PipeDiameter),\n                 'rough': from_si(self.flow_units, pipe.roughness, \n                                  HydParam.RoughnessCoeff, \n                                  darcy_weisbach=darcy_weisbach),\n                 'mloss': pipe.minor_loss,\n                 'status': str(pipe.initial_status),\n                 'com': ';'}\n            if pipe.check_valve:\n                E['status'] = 'CV'\n            f.write(_PIPE_ENTRY.format(**E).encode(sys_default_enc))", new="            length = from_si(self.flow_units, pipe.length, HydParam.Length)\n            diameter = from_si(self.flow_units, pipe.diameter, HydParam.PipeDiameter)\n            roughness = from_si(self.flow_units, pipe.roughness, HydParam.RoughnessCoeff, darcy_weisbach=darcy_weisbach)\n            status = 'CV' if pipe.check_valve else str(pipe.initial_status)\n            f.write(_PIPE_ENTRY.format(name=pipe_name, node1=pipe.start_node_name, node2=pipe.end_node_name, len=length, diam=diameter,\n                                       rough=roughness, mloss=pipe.minor_loss, status=status, com=';').encode(sys_default_enc))", silent=True),
+    dict(name='silent-valve-setting-lookup-table', file=IO, old="            valve_type = current[4].upper()\n            if valve_type in ['PRV', 'PSV', 'PBV']:\n                valve_set = to_si(self.flow_units, float(current[5]), HydParam.Pressure)\n            elif valve_type == 'FCV':\n                valve_set = to_si(self.flow_units, float(current[5]), HydParam.Flow)\n            elif valve_type == 'TCV':\n                valve_set = float(current[5])\n            elif valve_type == 'GPV':", new="            valve_type = current[4].upper()\n            setting_param = {'PRV': HydParam.Pressure, 'PSV': HydParam.Pressure, 'PBV': HydParam.Pressure, 'FCV': HydParam.Flow}\n            if valve_type in setting_param:\n                valve_set = to_si(self.flow_units, float(current[5]), setting_param[valve_type])\n            elif valve_type == 'TCV':\n                valve_set = float(current[5])\n            elif valve_type == 'GPV':", silent=True),
+    dict(name='silent-valve-chain-reordered-and-spelled-with-or', file=IO, old="            if valve_type in ['PRV', 'PSV', 'PBV']:\n                valve_set = to_si(self.flow_units, float(current[5]), HydParam.Pressure)\n            elif valve_type == 'FCV':\n                valve_set = to_si(self.flow_units, float(current[5]), HydParam.Flow)\n            elif valve_type == 'TCV':\n                valve_set = float(current[5])", new="            if valve_type == 'TCV':\n                valve_set = float(current[5])\n            elif valve_type == 'FCV':\n                valve_set = to_si(self.flow_units, float(current[5]), HydParam.Flow)\n            elif valve_type == 'PRV' or valve_type == 'PSV' or valve_type == 'PBV':\n                valve_set = to_si(self.flow_units, float(current[5]), HydParam.Pressure)", silent=True),
+    dict(name='silent-tank-overflow-guards-flattened', file=IO, old="            if version ==2.2:\n                if tank.overflow:\n                    E['overflow'] = 'YES'\n                    if tank.vol_curve is None:\n                        E['curve'] = '*'", new="            if version == 2.2 and tank.overflow:\n                E['overflow'] = 'YES'\n                if tank.vol_curve is None:\n                    E['curve'] = '*'", silent=True),
+    dict(name='silent-sec-to-string-renamed-parameter-and-temporaries', file=IO, old='def _sec_to_string(sec):\n    hours = int(sec/3600.)\n    sec -= hours*3600\n    mm = int(sec/60.)\n    sec -= mm*60\n    return (hours, mm, int(sec))', new='def _sec_to_string(seconds):\n    hours = int(seconds/3600.)\n    rest = seconds - hours*3600\n    mm = int(rest/60.)\n    return (hours, mm, int(rest - mm*60))', silent=True),
+    dict(name='silent-volume-curve-points-as-comprehension', file=IO, old='                    curve_points = []\n                    for point in self.curves[curve_name]:\n                        x = to_si(self.flow_units, point[0], HydParam.Length)\n                        y = to_si(self.flow_units, point[1], HydParam.Volume)\n                        curve_points.append((x, y))\n', new='                    curve_points = [(to_si(self.flow_units, pt[0], HydParam.Length), to_si(self.flow_units, pt[1], HydParam.Volume)) for pt in self.curves[curve_name]]\n', silent=True),
+    dict(name='silent-demand-guard-as-named-flag', file=IO, old='            demands = wn.get_node(node).demand_timeseries_list\n            # a single demand needs a [DEMANDS] line only to carry its category (the [JUNCTIONS] line has no place for it)\n            if len(demands) > 1 or (len(demands) == 1 and demands[0].category):\n                for ct, demand in enumerate(demands):', new='            dlist = wn.get_node(node).demand_timeseries_list\n            needs_lines = len(dlist) > 1 or (len(dlist) == 1 and bool(dlist[0].category))\n            if needs_lines:\n                for demand in dlist:', silent=True),
+    dict(name='silent-options-22-guard-inverted', file=IO, old="        if version == 2.0:\n            pass\n        else:\n            if wn.options.hydraulic.headerror != 0: \n                f.write(entry_float.format('HEADERROR', wn.options.hydraulic.headerror).encode(sys_default_enc))\n\n            if wn.options.hydraulic.flowchange != 0:\n                f.write(entry_float.format('FLOWCHANGE', wn.options.hydraulic.flowchange).encode(sys_default_enc))\n", new="        epanet22 = version != 2.0\n        if epanet22 and wn.options.hydraulic.headerror != 0:\n            f.write(entry_float.format('HEADERROR', wn.options.hydraulic.headerror).encode(sys_default_enc))\n        if epanet22 and wn.options.hydraulic.flowchange != 0:\n            f.write(entry_float.format('FLOWCHANGE', wn.options.hydraulic.flowchange).encode(sys_default_enc))\n", silent=True),
+    dict(name='silent-minimum-pressure-read-without-temporary', file=IO, old='                    minimum_pressure = to_si(self.flow_units, float(words[2]), HydParam.Pressure)\n                    opts.hydraulic.minimum_pressure = minimum_pressure\n', new='                    opts.hydraulic.minimum_pressure = to_si(self.flow_units, float(words[2]), HydParam.Pressure)\n', silent=True),
+    dict(name='silent-mass-units-chain-as-early-assignment', file=IO, old="        quality_units = wn.options.quality.inpfile_units\n        if isinstance(quality_units, str) and quality_units.split('/')[0] in ('mg', 'ug'):\n            self.mass_units = MassUnits[quality_units.split('/')[0]]\n        elif self.mass_units is None:\n            self.mass_units = MassUnits.mg\n", new="        qunits = wn.options.quality.inpfile_units\n        prefix = qunits.split('/')[0] if isinstance(qunits, str) else None\n        if prefix in ('mg', 'ug'):\n            self.mass_units = MassUnits[prefix]\n        elif self.mass_units is None:\n            self.mass_units = MassUnits.mg\n", silent=True),
+    dict(name='silent-reaction-order-lines-in-a-loop', file=IO, old="        f.write(entry_int.format('ORDER', 'BULK', int(wn.options.reaction.bulk_order)).encode(sys_default_enc))\n        f.write(entry_int.format('ORDER', 'TANK', int(wn.options.reaction.tank_order)).encode(sys_default_enc))\n        f.write(entry_int.format('ORDER', 'WALL', int(wn.options.reaction.wall_order)).encode(sys_default_enc))\n", new="        for label, order in (('BULK', wn.options.reaction.bulk_order), ('TANK', wn.options.reaction.tank_order), ('WALL', wn.options.reaction.wall_order)):\n            f.write(entry_int.format('ORDER', label, int(order)).encode(sys_default_enc))\n", silent=True),
+    dict(name='minimum-pressure-read-as-head', file=IO, old='minimum_pressure = to_si(self.flow_units, float(words[2]), HydParam.Pressure)', new='minimum_pressure = to_si(self.flow_units, float(words[2]), HydParam.HydraulicHead)', rule='R-C12-5'),
+    dict(name='required-pressure-written-unconverted', file=IO, old='required_pressure = from_si(self.flow_units, wn.options.hydraulic.required_pressure, HydParam.Pressure)', new='required_pressure = wn.options.hydraulic.required_pressure', rule='R-C12-5'),
+    dict(name='headerror-written-to-2.0-files', file=IO, old='        if version == 2.0:\n            pass\n        else:\n            if wn.options.hydraulic.headerror != 0: ', new='        if False:\n            pass\n        else:\n            if wn.options.hydraulic.headerror != 0: ', rule='R-C12-6'),
+    dict(name='overflow-column-written-to-2.0-files', file=IO, old='            if version ==2.2:\n                if tank.overflow:', new='            if True:\n                if tank.overflow:', rule='R-C12-6'),
+    dict(name='overflow-placeholder-overwrites-volume-curve', file=IO, old="            if version ==2.2:\n                if tank.overflow:\n                    E['overflow'] = 'YES'\n                    if tank.vol_curve is None:\n                        E['curve'] = '*'", new="            if version == 2.2 and tank.overflow:\n                E['overflow'] = 'YES'\n                E['curve'] = '*'", rule='R-C12-12'),
+    dict(name='minutes-weighed-by-six', file=IO, old='                int(time_tuple.groups()[1])*60 +\n                int(round(', new='                int(time_tuple.groups()[1])*6 +\n                int(round(', rule='R-C12-7'),
+    dict(name='source-type-tested-in-name-column', file=IO, old="current[1].upper() == 'MASS'", new="current[0].upper() == 'MASS'", rule='R-C12-3'),
+    dict(name='wall-order-line-after-coefficients', file=IO, old="        f.write(entry_int.format('ORDER', 'WALL', int(wn.options.reaction.wall_order)).encode(sys_default_enc))\n", new='', also=[('        if wn.options.reaction.limiting_potential is not None:\n', "        f.write(entry_int.format('ORDER', 'WALL', int(wn.options.reaction.wall_order)).encode(sys_default_enc))\n        if wn.options.reaction.limiting_potential is not None:\n")], rule='R-C12-4'),
+    dict(name='mass-units-from-option-only-when-unset', file=IO, old="        if isinstance(quality_units, str) and quality_units.split('/')[0] in ('mg', 'ug'):\n            self.mass_units = MassUnits[quality_units.split('/')[0]]\n        elif self.mass_units is None:", new="        if self.mass_units is None and isinstance(quality_units, str) and quality_units.split('/')[0] in ('mg', 'ug'):\n            self.mass_units = MassUnits[quality_units.split('/')[0]]\n        elif self.mass_units is None:", rule='R-C12-9'),
+    dict(name='units-line-announces-the-option-not-the-converting-unit', file=IO, old="f.write(entry_string.format('UNITS', self.flow_units.name)", new="f.write(entry_string.format('UNITS', wn.options.hydraulic.inpfile_units)", rule='R-C12-9'),
+    dict(name='volume-curve-y-read-unconverted', file=IO, old='                        y = to_si(self.flow_units, point[1], HydParam.Volume)\n', new='                        y = point[1]\n', rule='R-C12-2'),
+    dict(name='efficiency-curve-y-converted-on-read-only', file=IO, old='                        x = to_si(self.flow_units, point[0], HydParam.Flow)\n                        y = point[1]\n', new='                        x = to_si(self.flow_units, point[0], HydParam.Flow)\n                        y = to_si(self.flow_units, point[1], HydParam.Flow)\n', rule='R-C12-2'),
+    dict(name='control-fcv-setting-read-as-pressure', file=IO, old="            elif element.valve_type == 'FCV':\n                setting = to_si(flow_units, float(current[2]), HydParam.Flow)", new="            elif element.valve_type == 'FCV':\n                setting = to_si(flow_units, float(current[2]), HydParam.Pressure)", rule='R-C12-2'),
+    dict(name='control-setting-read-from-wrong-column', file=IO, old="            elif element.valve_type == 'FCV':\n                setting = to_si(flow_units, float(current[2]), HydParam.Flow)", new="            elif element.valve_type == 'FCV':\n                setting = to_si(flow_units, float(current[3]), HydParam.Flow)", rule='R-C12-2'),
+    dict(name='control-tank-threshold-read-as-pressure', file=IO, old='                threshold = to_si(flow_units, \n                                  float(current[7]), HydParam.HydraulicHead)# + node.elevation', new='                threshold = to_si(flow_units, \n                                  float(current[7]), HydParam.Pressure)# + node.elevation', rule='R-C12-2'),
+    dict(name='control-tcv-setting-written-as-pressure', file=IO, old="                elif valve_type == 'TCV':\n                    setting = str(value)", new="                elif valve_type == 'TCV':\n                    setting = str(from_si(self.flow_units, value, HydParam.Pressure))", rule='R-C12-2'),
+    dict(name='silent-rule-actions-then-else-share-one-formatter', file=IO, old='    def add_action_on_true(self, action, prefix=\' THEN\'):\n        """Add a "then" action from an IfThenElseControl"""\n        if isinstance(action, ControlAction):\n            fmt = \'{} {} {} {} = {}\'\n            attr = action._attribute\n            val_si = action._repr_value()\n            if attr.lower() in [\'demand\']:\n                value = \'{:.6g}\'.format(from_si(self.inp_units, val_si, HydParam.Demand))\n            elif attr.lower() in [\'head\', \'level\']:\n                value = \'{:.6g}\'.format(from_si(self.inp_units, val_si, HydParam.HydraulicHead))\n            elif attr.lower() in [\'flow\']:\n                value = \'{:.6g}\'.format(from_si(self.inp_units, val_si, HydParam.Flow))\n            elif attr.lower() in [\'pressure\']:\n                value = \'{:.6g}\'.format(from_si(self.inp_units, val_si, HydParam.Pressure))\n            elif attr.lower() in [\'setting\']:\n                if isinstance(action.target()[0], Valve):\n                    if action.target()[0].valve_type.upper() in [\'PRV\', \'PBV\', \'PSV\']:\n                        value = from_si(self.inp_units, val_si, HydParam.Pressure)\n                    elif action.target()[0].valve_type.upper() in [\'FCV\']:\n                        value = from_si(self.inp_units, val_si, HydParam.Flow)\n                    else:\n                        value = val_si\n                else:\n                    value = val_si\n                value = \'{:.6g}\'.format(value)\n            else: # status\n                value = val_si\n            if isinstance(action.target()[0], Valve):\n                cls = \'Valve\'\n            elif isinstance(action.target()[0], Pump):\n                cls = \'Pump\'\n            else:\n                cls = action.target()[0].__class__.__name__\n            clause = fmt.format(prefix, cls,\n                                action.target()[0].name, action.target()[1],\n                                value)\n            self.add_then(clause)\n\n', new="    def _format_action(self, action, prefix):\n        if isinstance(action, ControlAction):\n            fmt = '{} {} {} {} = {}'\n            attr = action._attribute\n            val_si = action._repr_value()\n            if attr.lower() in ['demand']:\n                value = '{:.6g}'.format(from_si(self.inp_units, val_si, HydParam.Demand))\n            elif attr.lower() in ['head', 'level']:\n                value = '{:.6g}'.format(from_si(self.inp_units, val_si, HydParam.HydraulicHead))\n            elif attr.lower() in ['flow']:\n                value = '{:.6g}'.format(from_si(self.inp_units, val_si, HydParam.Flow))\n            elif attr.lower() in ['pressure']:\n                value = '{:.6g}'.format(from_si(self.inp_units, val_si, HydParam.Pressure))\n            elif attr.lower() in ['setting']:\n                if isinstance(action.target()[0], Valve):\n                    if action.target()[0].valve_type.upper() in ['PRV', 'PBV', 'PSV']:\n                        value = from_si(self.inp_units, val_si, HydParam.Pressure)\n                    elif action.target()[0].valve_type.upper() in ['FCV']:\n                        value = from_si(self.inp_units, val_si, HydParam.Flow)\n                    else:\n                        value = val_si\n                else:\n                    value = val_si\n                value = '{:.6g}'.format(value)\n            else: # status\n                value = val_si\n            if isinstance(action.target()[0], Valve):\n                cls = 'Valve'\n            elif isinstance(action.target()[0], Pump):\n                cls = 'Pump'\n            else:\n                cls = action.target()[0].__class__.__name__\n            clause = fmt.format(prefix, cls,\n                                action.target()[0].name, action.target()[1],\n                                value)\n            return clause\n        return None\n\n\n    def add_action_on_true(self, action, prefix=' THEN'):\n        clause = self._format_action(action, prefix)\n        if clause is not None:\n            self.add_then(clause)\n\n", also=[('    def add_action_on_false(self, action, prefix=\' ELSE\'):\n        """Add an "else" action from an IfThenElseControl"""\n        if isinstance(action, ControlAction):\n            fmt = \'{} {} {} {} = {}\'\n            attr = action._attribute\n            val_si = action._repr_value()\n            if attr.lower() in [\'demand\']:\n                value = \'{:.6g}\'.format(from_si(self.inp_units, val_si, HydParam.Demand))\n            elif attr.lower() in [\'head\', \'level\']:\n                value = \'{:.6g}\'.format(from_si(self.inp_units, val_si, HydParam.HydraulicHead))\n            elif attr.lower() in [\'flow\']:\n                value = \'{:.6g}\'.format(from_si(self.inp_units, val_si, HydParam.Flow))\n            elif attr.lower() in [\'pressure\']:\n                value = \'{:.6g}\'.format(from_si(self.inp_units, val_si, HydParam.Pressure))\n            elif attr.lower() in [\'setting\']:\n                if isinstance(action.target()[0], Valve):\n                    if action.target()[0].valve_type.upper() in [\'PRV\', \'PBV\', \'PSV\']:\n                        value = from_si(self.inp_units, val_si, HydParam.Pressure)\n                    elif action.target()[0].valve_type.upper() in [\'FCV\']:\n                        value = from_si(self.inp_units, val_si, HydParam.Flow)\n                    else:\n                        value = val_si\n                else:\n                    value = val_si\n                value = \'{:.6g}\'.format(value)\n            else: # status\n                value = val_si\n            if isinstance(action.target()[0], Valve):\n                cls = \'Valve\'\n            elif isinstance(action.target()[0], Pump):\n                cls = \'Pump\'\n            else:\n                cls = action.target()[0].__class__.__name__\n            clause = fmt.format(prefix, cls,\n                                action.target()[0].name, action.target()[1],\n                                value)\n            self.add_else(clause)\n\n', "    def add_action_on_false(self, action, prefix=' ELSE'):\n        clause = self._format_action(action, prefix)\n        if clause is not None:\n            self.add_else(clause)\n\n")], silent=True),
+    dict(name='silent-rule-condition-attribute-lookup-table', file=IO, old="            if attr.lower() in ['demand']:\n                value = '{:.6g}'.format(from_si(self.inp_units, val_si, HydParam.Demand))\n            elif attr.lower() in ['head', 'level']:\n                value = '{:.6g}'.format(from_si(self.inp_units, val_si, HydParam.HydraulicHead))\n            elif attr.lower() in ['flow']:\n                value = '{:.6g}'.format(from_si(self.inp_units, val_si, HydParam.Flow))\n            elif attr.lower() in ['pressure']:\n                value = '{:.6g}'.format(from_si(self.inp_units, val_si, HydParam.Pressure))\n            elif attr.lower() in ['setting']:\n                if isinstance(condition._source_obj, Valve):", new="            attr_param = {'demand': HydParam.Demand, 'head': HydParam.HydraulicHead, 'level': HydParam.HydraulicHead, 'flow': HydParam.Flow, 'pressure': HydParam.Pressure}\n            if attr.lower() in attr_param:\n                value = '{:.6g}'.format(from_si(self.inp_units, val_si, attr_param[attr.lower()]))\n            elif attr.lower() in ['setting']:\n                if isinstance(condition._source_obj, Valve):", silent=True),
+    dict(name='silent-time-control-line-positional-format-no-dict', file=IO, old="                    entry = '{ltype} {link} {setting} AT {compare} {time}\\n'\n                    vals = {'ltype': control_action._target_obj.link_type,\n                            'link': control_action._target_obj.name,\n                            'setting': get_setting(control_action, text),\n                            'compare': 'TIME',\n                            'time': '{:d}:{:02d}:{:02d}'.format(*_sec_to_string(all_control._condition._threshold))}\n                    if vals['setting'] is None:\n                        continue\n                    if isinstance(all_control._condition, TimeOfDayCondition):\n                        vals['compare'] = 'CLOCKTIME'\n                    f.write(entry.format(**vals).encode(sys_default_enc))", new="                    setting = get_setting(control_action, text)\n                    if setting is None:\n                        continue\n                    compare = 'CLOCKTIME' if isinstance(all_control._condition, TimeOfDayCondition) else 'TIME'\n                    hrs, mm, sec = _sec_to_string(all_control._condition._threshold)\n                    f.write('{} {} {} AT {} {:d}:{:02d}:{:02d}\\n'.format(control_action._target_obj.link_type, control_action._target_obj.name, setting, compare, hrs, mm, sec).encode(sys_default_enc))", silent=True),
+    dict(name='silent-control-time-token-conditional-expression', file=IO, old="            if ':' in current[5]:\n                run_at_time = int(_str_time_to_sec(current[5]))\n            else:\n                run_at_time = int(float(current[5])*3600)\n            control_obj = Control._time_control(wn, run_at_time, 'SIM_TIME', False, action_obj, control_name)", new="            token = current[5]\n            run_at_time = int(_str_time_to_sec(token)) if ':' in token else int(float(token)*3600)\n            control_obj = Control._time_control(wn, run_at_time, 'SIM_TIME', False, action_obj, control_name)", silent=True),
+    dict(name='silent-valve-setting-module-level-lookup-table', file=IO, old="            valve_type = current[4].upper()\n            if valve_type in ['PRV', 'PSV', 'PBV']:\n                valve_set = to_si(self.flow_units, float(current[5]), HydParam.Pressure)\n            elif valve_type == 'FCV':\n                valve_set = to_si(self.flow_units, float(current[5]), HydParam.Flow)\n            elif valve_type == 'TCV':\n                valve_set = float(current[5])\n            elif valve_type == 'GPV':", new="            valve_type = current[4].upper()\n            if valve_type in _VALVE_SETTING_PARAM:\n                valve_set = to_si(self.flow_units, float(current[5]), _VALVE_SETTING_PARAM[valve_type])\n            elif valve_type == 'TCV':\n                valve_set = float(current[5])\n            elif valve_type == 'GPV':", also=[('_TANK_ENTRY = ', "_VALVE_SETTING_PARAM = {'PRV': HydParam.Pressure, 'PSV': HydParam.Pressure, 'PBV': HydParam.Pressure, 'FCV': HydParam.Flow}\n_TANK_ENTRY = ")], silent=True),
+    dict(name='valve-lookup-table-pbv-as-flow', file=IO, old="            valve_type = current[4].upper()\n            if valve_type in ['PRV', 'PSV', 'PBV']:\n                valve_set = to_si(self.flow_units, float(current[5]), HydParam.Pressure)\n            elif valve_type == 'FCV':\n                valve_set = to_si(self.flow_units, float(current[5]), HydParam.Flow)\n            elif valve_type == 'TCV':\n                valve_set = float(current[5])\n            elif valve_type == 'GPV':", new="            valve_type = current[4].upper()\n            if valve_type in _VALVE_SETTING_PARAM:\n                valve_set = to_si(self.flow_units, float(current[5]), _VALVE_SETTING_PARAM[valve_type])\n            elif valve_type == 'TCV':\n                valve_set = float(current[5])\n            elif valve_type == 'GPV':", also=[('_TANK_ENTRY = ', "_VALVE_SETTING_PARAM = {'PRV': HydParam.Pressure, 'PSV': HydParam.Pressure, 'PBV': HydParam.Flow, 'FCV': HydParam.Flow}\n_TANK_ENTRY = ")], rule='R-C12-2'),
+    dict(name='silent-headloss-curve-points-renamed-inline-append', file=IO, old="                for point in self.curves[curve_name]:\n                    x = to_si(self.flow_units, point[0], HydParam.Flow)\n                    y = to_si(self.flow_units, point[1], HydParam.HeadLoss)\n                    curve_points.append((x, y))\n                self.wn.add_curve(curve_name, 'HEADLOSS', curve_points)", new="                for pt in self.curves[curve_name]:\n                    curve_points.append((to_si(self.flow_units, pt[0], HydParam.Flow), to_si(self.flow_units, pt[1], HydParam.HeadLoss)))\n                self.wn.add_curve(curve_name, 'HEADLOSS', curve_points)", silent=True),
+    dict(name='silent-curve-writer-unpacks-point', file=IO, old="                for point in curve.points:\n                    x = from_si(self.flow_units, point[0], HydParam.Length)\n                    y = from_si(self.flow_units, point[1], HydParam.Volume)\n                    f.write(_CURVE_ENTRY.format(name=curve_name, x=x, y=y, com=';').encode(sys_default_enc))", new="                for px, py in curve.points:\n                    f.write(_CURVE_ENTRY.format(name=curve_name, x=from_si(self.flow_units, px, HydParam.Length), y=from_si(self.flow_units, py, HydParam.Volume), com=';').encode(sys_default_enc))", silent=True),
+    dict(name='silent-reader-lines-from-generator-helper', file=IO, old="    def _read_emitters(self):\n        for lnum, line in self.sections['[EMITTERS]']: # Private attribute on junctions\n            line = line.split(';')[0]\n            current = line.split()\n            if current == []:\n                continue\n            junction = self.wn.get_node(current[0])\n            junction.emitter_coefficient = to_si(self.flow_units, float(current[1]), HydParam.EmitterCoeff)\n\n", new="    def _section_tokens(self, section):\n        for lnum, line in self.sections[section]:\n            words = line.split(';')[0].split()\n            if words:\n                yield lnum, words\n\n    def _read_emitters(self):\n        for lnum, words in self._section_tokens('[EMITTERS]'):\n            junction = self.wn.get_node(words[0])\n            junction.emitter_coefficient = to_si(self.flow_units, float(words[1]), HydParam.EmitterCoeff)\n\n", silent=True),
+    dict(name='silent-emitters-written-with-f-strings', file=IO, old="        entry = '{:10s} {:10s}\\n'\n        label = '{:10s} {:10s}\\n'\n        f.write(label.format(';ID', 'Flow coefficient').encode(sys_default_enc))\n        njunctions = list(wn.junction_name_list)\n        # njunctions.sort()\n        for junction_name in njunctions:\n            junction = wn.nodes[junction_name]\n            if junction.emitter_coefficient:\n                val = from_si(self.flow_units, junction.emitter_coefficient, HydParam.EmitterCoeff)\n                f.write(entry.format(junction_name, str(val)).encode(sys_default_enc))", new='        f.write(f"{\';ID\':10s} {\'Flow coefficient\':10s}\\n".encode(sys_default_enc))\n        for junction_name in list(wn.junction_name_list):\n            junction = wn.nodes[junction_name]\n            if junction.emitter_coefficient:\n                val = from_si(self.flow_units, junction.emitter_coefficient, HydParam.EmitterCoeff)\n                f.write(f"{junction_name:10s} {str(val):10s}\\n".encode(sys_default_enc))', silent=True),
+    dict(name='silent-pipe-line-as-f-string', file=IO, old="            E = {'name': pipe_name,\n                 'node1': pipe.start_node_name,\n                 'node2': pipe.end_node_name,\n                 'len': from_si(self.flow_units, pipe.length, HydParam.Length),\n                 'diam': from_si(self.flow_units, pipe.diameter, HydParam.PipeDiameter),\n                 'rough': from_si(self.flow_units, pipe.roughness, \n                                  HydParam.RoughnessCoeff, \n                                  darcy_weisbach=darcy_weisbach),\n                 'mloss': pipe.minor_loss,\n                 'status': str(pipe.initial_status),\n                 'com': ';'}\n            if pipe.check_valve:\n                E['status'] = 'CV'\n            f.write(_PIPE_ENTRY.format(**E).encode(sys_default_enc))", new='            length = from_si(self.flow_units, pipe.length, HydParam.Length)\n            diameter = from_si(self.flow_units, pipe.diameter, HydParam.PipeDiameter)\n            roughness = from_si(self.flow_units, pipe.roughness, HydParam.RoughnessCoeff, darcy_weisbach=darcy_weisbach)\n            status = \'CV\' if pipe.check_valve else str(pipe.initial_status)\n            f.write(f" {pipe_name:20s} {pipe.start_node_name:20s} {pipe.end_node_name:20s} {length:15.11g} {diameter:15.11g} {roughness:15.11g} {pipe.minor_loss:15.11g} {status:>20s} {\';\':>3s}\\n".encode(sys_default_enc))', silent=True),
+    dict(name='pipe-f-string-length-and-diameter-swapped', file=IO, old="            E = {'name': pipe_name,\n                 'node1': pipe.start_node_name,\n                 'node2': pipe.end_node_name,\n                 'len': from_si(self.flow_units, pipe.length, HydParam.Length),\n                 'diam': from_si(self.flow_units, pipe.diameter, HydParam.PipeDiameter),\n                 'rough': from_si(self.flow_units, pipe.roughness, \n                                  HydParam.RoughnessCoeff, \n                                  darcy_weisbach=darcy_weisbach),\n                 'mloss': pipe.minor_loss,\n                 'status': str(pipe.initial_status),\n                 'com': ';'}\n            if pipe.check_valve:\n                E['status'] = 'CV'\n            f.write(_PIPE_ENTRY.format(**E).encode(sys_default_enc))", new='            length = from_si(self.flow_units, pipe.length, HydParam.Length)\n            diameter = from_si(self.flow_units, pipe.diameter, HydParam.PipeDiameter)\n            roughness = from_si(self.flow_units, pipe.roughness, HydParam.RoughnessCoeff, darcy_weisbach=darcy_weisbach)\n            status = \'CV\' if pipe.check_valve else str(pipe.initial_status)\n            f.write(f" {pipe_name:20s} {pipe.start_node_name:20s} {pipe.end_node_name:20s} {diameter:15.11g} {length:15.11g} {roughness:15.11g} {pipe.minor_loss:15.11g} {status:>20s} {\';\':>3s}\\n".encode(sys_default_enc))', rule='R-C12-2'),
+    dict(name='silent-order-line-percent-formatting', file=IO, old="        f.write(entry_int.format('ORDER', 'BULK', int(wn.options.reaction.bulk_order)).encode(sys_default_enc))", new="        f.write((' %s %s %d\\n' % ('ORDER', 'BULK', int(wn.options.reaction.bulk_order))).encode(sys_default_enc))", silent=True),
+    dict(name='silent-read-sections-dispatched-from-a-name-table', file=IO, old='            self._read_mixing()\n            self._read_report()\n            self._read_vertices()\n            self._read_labels()\n', new="            for section in ('mixing', 'report', 'vertices', 'labels'):\n                getattr(self, '_read_' + section)()\n", silent=True),
+    dict(name='mixing-section-no-longer-read', file=IO, old='            self._read_mixing()\n            self._read_report()\n', new='            self._read_report()\n', rule='R-C12-1'),
 ]
